@@ -144,6 +144,26 @@ pub fn workspace(thorough: bool) -> Report {
         }
         if let Ok(g) = build_libcnb_buildpacks_dependency_graph(t.path()) { r.violation("workspace_invalid_dependency_id", "a libcnb: dependency whose id is not a valid buildpack id is an error (not dropped)", format!("bp0 -> [libcnb:demo/bp1, {bad}]"), "Err".into(), format!("Ok: {} nodes, {} edges", g.node_count(), g.edge_count())); }
     }
+    // a libcnb.rs COMPONENT buildpack (no order, has a Cargo.toml) may have a package.toml too: its libcnb: dependencies are edges like any other
+    {
+        r.evaluations += 1; r.nontrivial += 1;
+        let t = tempfile::tempdir().unwrap();
+        let comp = t.path().join("rs"); fs::create_dir_all(comp.join("src")).unwrap();
+        fs::write(comp.join("buildpack.toml"), "api = \"0.10\"\n[buildpack]\nid = \"demo/rs\"\nversion = \"0.0.1\"\n").unwrap();
+        fs::write(comp.join("Cargo.toml"), "[package]\nname = \"demo-rs\"\nversion = \"0.0.0\"\nedition = \"2021\"\n[workspace]\n").unwrap(); fs::write(comp.join("src/main.rs"), "fn main() {}\n").unwrap();
+        fs::write(comp.join("package.toml"), "[buildpack]\nuri = \".\"\n[[dependencies]]\nuri = \"libcnb:demo/base\"\n").unwrap();
+        let base = t.path().join("base"); fs::create_dir_all(&base).unwrap();
+        fs::write(base.join("buildpack.toml"), "api = \"0.10\"\n[buildpack]\nid = \"demo/base\"\nversion = \"0.0.1\"\n[[order]]\n[[order.group]]\nid = \"x/y\"\nversion = \"1.0.0\"\n").unwrap();
+        fs::write(base.join("package.toml"), "[buildpack]\nuri = \".\"\n").unwrap();
+        match build_libcnb_buildpacks_dependency_graph(t.path()) {
+            Ok(g) if g.node_count() == 2 && g.edge_count() == 1 => {}
+            Ok(g) => r.violation("workspace_component_dependencies", "the libcnb: dependencies in the package.toml of a libcnb.rs (component) buildpack are edges of the graph", "rs (component, Cargo.toml) -> libcnb:demo/base (composite)".into(), "2 nodes, 1 edge".into(), format!("{} nodes, {} edges", g.node_count(), g.edge_count())),
+            Err(e) => r.violation("workspace_component_dependencies", "the libcnb: dependencies in the package.toml of a libcnb.rs (component) buildpack are edges of the graph", "rs (component, Cargo.toml) -> libcnb:demo/base (composite)".into(), "2 nodes, 1 edge".into(), e.to_string()),
+        }
+        // ... and a dangling one is an error there too
+        fs::write(comp.join("package.toml"), "[buildpack]\nuri = \".\"\n[[dependencies]]\nuri = \"libcnb:demo/ghost\"\n").unwrap();
+        if build_libcnb_buildpacks_dependency_graph(t.path()).is_ok() { r.violation("workspace_component_dependencies", "a libcnb: dependency of a component buildpack on a buildpack that does not exist is an error", "rs (component) -> libcnb:demo/ghost".into(), "Err".into(), "Ok".into()); }
+    }
     // a buildpack directory that is a symbolic link (to a directory outside the scanned root) is part of the workspace
     {
         r.evaluations += 1; r.nontrivial += 1;
